@@ -24,7 +24,8 @@ Lemma cancel_g_rest s og :
   nonce (cancel_g s og) = nonce s /\ waitch (cancel_g s og) = waitch s /\ resolved (cancel_g s og) = resolved s /\
   value (cancel_g s og) = value s /\ verr (cancel_g s og) = verr s /\ vrel (cancel_g s og) = vrel s /\ vgen (cancel_g s og) = vgen s /\
   target (cancel_g s og) = target s /\ terr (cancel_g s og) = terr s /\ rellog (cancel_g s og) = rellog s /\
-  conss (cancel_g s og) = conss s /\ asyncs (cancel_g s og) = asyncs s /\ relacts (cancel_g s og) = relacts s /\ panicked (cancel_g s og) = panicked s.
+  conss (cancel_g s og) = conss s /\ asyncs (cancel_g s og) = asyncs s /\ relacts (cancel_g s og) = relacts s /\ panicked (cancel_g s og) = panicked s /\
+  rootc (cancel_g s og) = rootc s.
 Proof. unfold cancel_g. destruct og as [g|]; [destruct (nth_error (gs s) g)|]; repeat split; reflexivity. Qed.
 
 Lemma cancel_g_gs s og :
@@ -32,7 +33,8 @@ Lemma cancel_g_gs s og :
   forall i, gwait (getg (cancel_g s og) i) = gwait (getg s i) /\ gnonce (getg (cancel_g s og) i) = gnonce (getg s i) /\
             gpcv (getg (cancel_g s og) i) = gpcv (getg s i) /\ grel (getg (cancel_g s og) i) = grel (getg s i) /\
             gent (getg (cancel_g s og) i) = gent (getg s i) /\
-            (gcanc (getg s i) = true -> gcanc (getg (cancel_g s og) i) = true).
+            (gcanc (getg s i) = true -> gcanc (getg (cancel_g s og) i) = true) /\
+            groot (getg (cancel_g s og) i) = groot (getg s i).
 Proof.
   unfold cancel_g. destruct og as [g|]; [|split; [reflexivity | intros i; repeat split; auto]].
   destruct (nth_error (gs s) g) as [x|] eqn:E; [|split; [reflexivity | intros i; repeat split; auto]].
@@ -172,27 +174,27 @@ Lemma clear_resolved_spec s :
   target s' = (if resolved s then (if Nat.eqb (value s) 0 then target s else 0) else target s) /\
   terr s' = (if resolved s then (if Nat.eqb (verr s) 0 then terr s else 0) else terr s) /\
   rellog s' = (match vrel s with Some id => rellog s ++ [rel_entry s s' id] | None => rellog s end) /\
-  waitch s' = waitch s /\ panicked s' = panicked s /\ relacts s' = relacts s.
+  waitch s' = waitch s /\ panicked s' = panicked s /\ relacts s' = relacts s /\ rootc s' = rootc s.
 Proof.
   unfold clear_resolved. destruct (resolved s) eqn:Er.
   - set (sA := set_val (set_target s _ _) false 0 0 _ _). set (s1 := call_cbs sA NGone).
-    destruct (rest_fields sA s1 (rest_call_cbs sA NGone)) as [F1 [F2 [F3 [F4 [F5 [F6 [F7 [F8 [F9 [F10 [F11 [F12 [F13 [F14 [F15 F16]]]]]]]]]]]]]]].
-    destruct (cancel_g_rest s1 (rcancel s1)) as [G1 [G2 [G3 [G4 [G5 [G6 [G7 [G8 [G9 [G10 [G11 [G12 [G13 [G14 [G15 [G16 [G17 G18]]]]]]]]]]]]]]]]].
+    destruct (rest_fields sA s1 (rest_call_cbs sA NGone)) as [F1 [F2 [F3 [F4 [F5 [F6 [F7 [F8 [F9 [F10 [F11 [F12 [F13 [F14 [F15 [F16 F17]]]]]]]]]]]]]]]].
+    destruct (cancel_g_rest s1 (rcancel s1)) as [G1 [G2 [G3 [G4 [G5 [G6 [G7 [G8 [G9 [G10 [G11 [G12 [G13 [G14 [G15 [G16 [G17 [G18 G19]]]]]]]]]]]]]]]]]].
     assert (T : told inset NGone (refs s) (refs s1)) by (apply (told_call_cbs sA NGone)).
     assert (EG : gs (cancel_g s1 (rcancel s1)) = gs (cancel_g s (rcancel s))) by (rewrite F3; apply cancel_g_gs_congr; exact F13).
     clearbody s1. subst sA.
-    cbn [kctx keep rcancel nonce waitch resolved value verr vrel vgen target terr gs rellog relacts panicked set_val set_target] in F1, F2, F3, F4, F5, F6, F7, F8, F9, F10, F11, F12, F13, F14, F15, F16.
+    cbn [kctx keep rcancel nonce waitch resolved value verr vrel vgen target terr gs rellog relacts panicked rootc set_val set_target] in F1, F2, F3, F4, F5, F6, F7, F8, F9, F10, F11, F12, F13, F14, F15, F16, F17.
     unfold rel_entry.
     cbn [vrel set_rcancel]. rewrite G10, F9.
     destruct (vrel s) as [id|] eqn:Ev;
-      cbn [kctx keep refs rcancel nonce waitch resolved value verr vrel vgen target terr gs rellog relacts panicked set_val set_rellog log_release set_rcancel];
-      rewrite ?G10, ?F9, ?G1, ?G2, ?G3, ?G5, ?G6, ?G7, ?G8, ?G9, ?G11, ?G12, ?G13, ?G14, ?G17, ?G18,
-        ?F1, ?F2, ?F4, ?F5, ?F6, ?F7, ?F8, ?F10, ?F11, ?F12, ?F14, ?F15, ?F16; repeat split; try reflexivity; try apply T; try exact EG; try exact Ev.
-  - destruct (cancel_g_rest s (rcancel s)) as [G1 [G2 [G3 [G4 [G5 [G6 [G7 [G8 [G9 [G10 [G11 [G12 [G13 [G14 [G15 [G16 [G17 G18]]]]]]]]]]]]]]]]].
+      cbn [kctx keep refs rcancel nonce waitch resolved value verr vrel vgen target terr gs rellog relacts panicked rootc set_val set_rellog log_release set_rcancel];
+      rewrite ?G10, ?F9, ?G1, ?G2, ?G3, ?G5, ?G6, ?G7, ?G8, ?G9, ?G11, ?G12, ?G13, ?G14, ?G17, ?G18, ?G19,
+        ?F1, ?F2, ?F4, ?F5, ?F6, ?F7, ?F8, ?F10, ?F11, ?F12, ?F14, ?F15, ?F16, ?F17; repeat split; try reflexivity; try apply T; try exact EG; try exact Ev.
+  - destruct (cancel_g_rest s (rcancel s)) as [G1 [G2 [G3 [G4 [G5 [G6 [G7 [G8 [G9 [G10 [G11 [G12 [G13 [G14 [G15 [G16 [G17 [G18 G19]]]]]]]]]]]]]]]]]].
     unfold rel_entry. cbn [vrel set_rcancel]. rewrite G10.
     destruct (vrel s) as [id|] eqn:Ev;
-      cbn [kctx keep refs rcancel nonce waitch resolved value verr vrel vgen target terr gs rellog relacts panicked set_val set_rellog log_release set_rcancel];
-      rewrite ?G10, ?F9, ?G1, ?G2, ?G3, ?G5, ?G6, ?G7, ?G8, ?G9, ?G11, ?G12, ?G13, ?G14, ?G17, ?G18;
+      cbn [kctx keep refs rcancel nonce waitch resolved value verr vrel vgen target terr gs rellog relacts panicked rootc set_val set_rellog log_release set_rcancel];
+      rewrite ?G10, ?F9, ?G1, ?G2, ?G3, ?G5, ?G6, ?G7, ?G8, ?G9, ?G11, ?G12, ?G13, ?G14, ?G17, ?G18, ?G19;
       repeat split; try reflexivity; try exact Er; try exact Ev.
 Qed.
 
@@ -200,9 +202,11 @@ Qed.
 (* The invariant.  [Core] does not mention the context or the number of references; [Live] does. *)
 Definition ids (s : st) : list nat := map rc_id (rellog s).
 
-(* nonces: bounded by the container's, strictly increasing along the goroutines, a cancelled goroutine is superseded *)
+(* nonces: bounded by the container's, strictly increasing along the goroutines; a cancelled goroutine is superseded, or
+   its root context was cancelled by its owner *)
 Definition InvN (s : st) : Prop := forall i, i < length (gs s) ->
-  gnonce (getg s i) <= nonce s /\ (gcanc (getg s i) = true -> gnonce (getg s i) < nonce s) /\
+  gnonce (getg s i) <= nonce s /\
+  (gcanc (getg s i) = true -> gnonce (getg s i) < nonce s \/ rcanc s (groot (getg s i)) = true) /\
   (forall j, j < i -> gnonce (getg s j) < gnonce (getg s i)).
 
 Definition InvS (s : st) : Prop := forall i, i < length (gs s) ->
@@ -243,36 +247,37 @@ Definition Live (s : st) : Prop :=
   (forall g, g < length (gs s) -> gnonce (getg s g) = nonce s -> gdone (getg s g) = false ->
      kctx s <> 0 /\ nrefs s > 0 /\ resolved s = false) /\
   (resolved s = true -> kctx s <> 0 /\ (nrefs s > 0 \/ (keep s = true /\ verr s = 0))) /\
-  (kctx s <> 0 -> nrefs s > 0 -> resolved s = false ->
-     exists g, g < length (gs s) /\ gnonce (getg s g) = nonce s /\ gdone (getg s g) = false).
+  (kctx s <> 0 -> nrefs s > 0 -> resolved s = false -> rcanc s (kctx s) = false ->
+     exists g, g < length (gs s) /\ gnonce (getg s g) = nonce s /\ gdone (getg s g) = false) /\
+  (forall g, g < length (gs s) -> gnonce (getg s g) = nonce s -> groot (getg s g) = kctx s).
 
 Definition Inv (s : st) : Prop := Core s /\ Live s.
 
 Definition cfields (s : st) :=
-  (gs s, nonce s, rellog s, (resolved s, value s, verr s, vrel s, vgen s), (target s, terr s), refs s).
-Definition lfields (s : st) := (gs s, nonce s, kctx s, keep s, resolved s, verr s, nrefs s).
+  (gs s, nonce s, rellog s, (resolved s, value s, verr s, vrel s, vgen s), (target s, terr s), refs s, rootc s).
+Definition lfields (s : st) := (gs s, nonce s, kctx s, keep s, resolved s, verr s, nrefs s, rootc s).
 
 Lemma Core_ext s s' : cfields s' = cfields s -> Core s -> Core s'.
 Proof.
-  unfold cfields. intros E H. inversion E as [[E1 E2 E3 E4 E5 E6 E7 E8 E9 E10 E11]].
-  unfold Core, InvN, InvS, InvL123, InvL4, entry_ok, InvV, InvR, ids, getg in *.
-  rewrite E1, E2, E3, E4, E5, E6, E7, E8, E9, E10, E11. exact H.
+  unfold cfields. intros E H. inversion E as [[E1 E2 E3 E4 E5 E6 E7 E8 E9 E10 E11 E12]].
+  unfold Core, InvN, InvS, InvL123, InvL4, entry_ok, InvV, InvR, ids, getg, rcanc in *.
+  rewrite E1, E2, E3, E4, E5, E6, E7, E8, E9, E10, E11, E12. exact H.
 Qed.
 
 Lemma Live_ext s s' : lfields s' = lfields s -> Live s -> Live s'.
 Proof.
-  unfold lfields. intros E H. inversion E as [[E1 E2 E3 E4 E5 E6 E7]].
-  unfold Live, getg in *. rewrite E1, E2, E3, E4, E5, E6, E7. exact H.
+  unfold lfields. intros E H. inversion E as [[E1 E2 E3 E4 E5 E6 E7 E8]].
+  unfold Live, getg, rcanc in *. rewrite E1, E2, E3, E4, E5, E6, E7, E8. exact H.
 Qed.
 
 Definition cfields0 (s : st) :=
-  (gs s, nonce s, rellog s, (resolved s, value s, verr s, vrel s, vgen s), (target s, terr s)).
+  (gs s, nonce s, rellog s, (resolved s, value s, verr s, vrel s, vgen s), (target s, terr s), rootc s).
 
 Lemma Core_refs s s' : cfields0 s' = cfields0 s -> InvR s' -> Core s -> Core s'.
 Proof.
-  unfold cfields0. intros E HR' [HN [HS [HL [HL4 [HV HR]]]]]. inversion E as [[E1 E2 E3 E4 E5 E6 E7 E8 E9 E10]].
+  unfold cfields0. intros E HR' [HN [HS [HL [HL4 [HV HR]]]]]. inversion E as [[E1 E2 E3 E4 E5 E6 E7 E8 E9 E10 E11]].
   unfold Core. split; [|split; [|split; [|split; [|split; [|exact HR']]]]]; clear HR HR';
-    unfold InvN, InvS, InvL123, InvL4, entry_ok, InvV, ids, getg in *; rewrite E1, ?E2, ?E3, ?E4, ?E5, ?E6, ?E7, ?E8, ?E9, ?E10; assumption.
+    unfold InvN, InvS, InvL123, InvL4, entry_ok, InvV, ids, getg, rcanc in *; rewrite E1, ?E2, ?E3, ?E4, ?E5, ?E6, ?E7, ?E8, ?E9, ?E10, ?E11; assumption.
 Qed.
 
 Lemma Inv_ext s s' : cfields s' = cfields s -> lfields s' = lfields s -> Inv s -> Inv s'.
@@ -293,7 +298,8 @@ Definition gsame (s s' : st) : Prop :=
   forall i, gwait (getg s' i) = gwait (getg s i) /\ gnonce (getg s' i) = gnonce (getg s i) /\
             gpcv (getg s' i) = gpcv (getg s i) /\ grel (getg s' i) = grel (getg s i) /\
             gent (getg s' i) = gent (getg s i) /\
-            (gcanc (getg s i) = true -> gcanc (getg s' i) = true).
+            (gcanc (getg s i) = true -> gcanc (getg s' i) = true) /\
+            groot (getg s' i) = groot (getg s i).
 
 Lemma gsame_gdone s s' i : gsame s s' -> gdone (getg s' i) = gdone (getg s i).
 Proof. intros [_ H]. destruct (H i) as [_ [_ [E _]]]. unfold gdone. now rewrite E. Qed.
@@ -311,20 +317,20 @@ Lemma shutdown_spec s :
                | Some id => rellog s ++ [{| rc_id := id; rc_val := value s; rc_target := target s';
                                             rc_stale := cnt (fun x => rin x && is_res (value s) (verr s) (rlast x)) (refs s') |}]
                | None => rellog s end) /\
-  waitch s' = waitch s /\ panicked s' = panicked s /\ relacts s' = relacts s.
+  waitch s' = waitch s /\ panicked s' = panicked s /\ relacts s' = relacts s /\ rootc s' = rootc s.
 Proof.
   unfold shutdown. set (s0 := set_nonce s (S (nonce s))).
-  destruct (clear_resolved_spec s0) as [C1 [C2 [C3 [C4 [C5 [C6 [C7 [C8 [C9 [C10 [C11 [C12 [C13 [C14 [C15 C16]]]]]]]]]]]]]]].
+  destruct (clear_resolved_spec s0) as [C1 [C2 [C3 [C4 [C5 [C6 [C7 [C8 [C9 [C10 [C11 [C12 [C13 [C14 [C15 [C16 C17]]]]]]]]]]]]]]]].
   unfold rel_entry in C13.
   assert (EG : gs (cancel_g s0 (rcancel s0)) = gs (cancel_g s (rcancel s))) by (apply cancel_g_gs_congr; reflexivity).
   rewrite EG in C5. clear EG. subst s0. cbv zeta.
-  cbn [kctx keep refs rcancel nonce waitch resolved value verr vrel vgen target terr gs rellog relacts panicked set_nonce] in C1, C2, C3, C4, C5, C6, C7, C8, C9, C10, C11, C12, C13, C14, C15, C16.
+  cbn [kctx keep refs rcancel nonce waitch resolved value verr vrel vgen target terr gs rellog relacts panicked rootc set_nonce] in C1, C2, C3, C4, C5, C6, C7, C8, C9, C10, C11, C12, C13, C14, C15, C16, C17.
   set (s' := clear_resolved (set_nonce s (S (nonce s)))) in *. clearbody s'.
   assert (GS : gsame s s').
   { destruct (cancel_g_gs s (rcancel s)) as [L F]. unfold gsame, getg in *. rewrite C5. split; [exact L | exact F]. }
   split; [exact C1|]. split; [exact C2|]. split; [exact C3|]. split; [exact C4|]. split; [exact GS|]. split; [exact C6|].
   split; [exact C7|]. split; [exact C8|]. split; [exact C9|]. split; [exact C10|]. split; [exact C11|]. split; [exact C12|].
-  split; [exact C13|]. split; [exact C14|]. split; [exact C15 | exact C16].
+  split; [exact C13|]. split; [exact C14|]. split; [exact C15|]. split; [exact C16 | exact C17].
 Qed.
 
 Lemma NoDup_snoc {A} (l : list A) a : NoDup l -> ~ In a l -> NoDup (l ++ [a]).
@@ -440,10 +446,11 @@ Qed.
 Lemma Live_no_current s :
   (forall i, i < length (gs s) -> gnonce (getg s i) < nonce s) -> resolved s = false -> (kctx s = 0 \/ nrefs s = 0) -> Live s.
 Proof.
-  intros HB Hr Hz. split; [|split].
+  intros HB Hr Hz. split; [|split; [|split]].
   - intros g Hg En. specialize (HB g Hg). lia.
   - intros H. congruence.
   - intros H1 H2. destruct Hz; [contradiction | lia].
+  - intros g Hg En. specialize (HB g Hg). lia.
 Qed.
 
 Lemma shutdown_resolved s : resolved (shutdown s) = false.
@@ -466,7 +473,7 @@ Proof. cbn [gs set_gs]. rewrite app_length. cbn [length]. lia. Qed.
 
 Lemma Core_spawn s x :
   Core s -> gnonce x = nonce s -> (forall i, i < length (gs s) -> gnonce (getg s i) < nonce s) ->
-  gcanc x = false -> gpcv x = GGate0 -> grel x = false -> Core (set_gs s (gs s ++ [x])).
+  (gcanc x = true -> rcanc s (groot x) = true) -> gpcv x = GGate0 -> grel x = false -> Core (set_gs s (gs s ++ [x])).
 Proof.
   intros [HN [HS [[L1 [L2 L3]] [HL4 [[V1 [V2 [V3 V5]]] [R1 [R2 R3]]]]]]] En HB Ec Ep Er.
   set (s' := set_gs s (gs s ++ [x])).
@@ -475,7 +482,7 @@ Proof.
   assert (GL : length (gs s') = S (length (gs s))) by apply length_spawn.
   split; [|split; [|split; [|split; [|split]]]].
   - intros i Hi. rewrite GL in Hi. change (nonce s') with (nonce s). destruct (Nat.eq_dec i (length (gs s))) as [->|Hne].
-    + rewrite GNw, En, Ec. split; [lia|]. split; [discriminate|]. intros j Hj. rewrite (GO j Hj). now apply HB.
+    + rewrite GNw, En. split; [lia|]. split; [intros Hc; right; exact (Ec Hc)|]. intros j Hj. rewrite (GO j Hj). now apply HB.
     + assert (Hi' : i < length (gs s)) by lia. rewrite (GO i Hi'). destruct (HN i Hi') as [N1 [N2 N3]].
       split; [exact N1|]. split; [exact N2|]. intros j Hj. rewrite (GO j ltac:(lia)). now apply N3.
   - intros i Hi. rewrite GL in Hi. destruct (Nat.eq_dec i (length (gs s))) as [->|Hne].
@@ -495,16 +502,18 @@ Proof.
 Qed.
 
 Lemma Live_spawn s x :
-  gnonce x = nonce s -> gpcv x = GGate0 -> kctx s <> 0 -> nrefs s > 0 -> resolved s = false ->
+  gnonce x = nonce s -> gpcv x = GGate0 -> groot x = kctx s -> kctx s <> 0 -> nrefs s > 0 -> resolved s = false ->
   (forall i, i < length (gs s) -> gnonce (getg s i) < nonce s) -> Live (set_gs s (gs s ++ [x])).
 Proof.
-  intros En Ep Hk Hn Hr HB. set (s' := set_gs s (gs s ++ [x])).
+  intros En Ep Egr Hk Hn Hr HB. set (s' := set_gs s (gs s ++ [x])).
   assert (GNw : getg s' (length (gs s)) = x) by apply getg_spawn_new.
   assert (GL : length (gs s') = S (length (gs s))) by apply length_spawn.
-  split; [|split].
+  split; [|split; [|split]].
   - intros g Hg Eg _. auto.
   - intros H. change (resolved s') with (resolved s) in H. congruence.
-  - intros _ _ _. exists (length (gs s)). split; [lia|]. rewrite GNw. split; [exact En|]. unfold gdone. now rewrite Ep.
+  - intros _ _ _ _. exists (length (gs s)). split; [lia|]. rewrite GNw. split; [exact En|]. unfold gdone. now rewrite Ep.
+  - intros g Hg Eg. rewrite GL in Hg. destruct (Nat.eq_dec g (length (gs s))) as [->|Hne]; [now rewrite GNw|].
+    unfold s' in Eg. rewrite getg_spawn_old in Eg by lia. specialize (HB g ltac:(lia)). change (nonce (set_gs s (gs s ++ [x]))) with (nonce s) in Eg. lia.
 Qed.
 
 Lemma start_resolve_inv s : Core s -> Inv (start_resolve s).
@@ -516,7 +525,8 @@ Proof.
   - split; [exact H1|]. apply Live_no_current; auto.
   - destruct (Nat.eqb_spec (nrefs s1) 0) as [En|En].
     + split; [exact H1|]. apply Live_no_current; auto.
-    + set (x := {| gcanc := false; gwait := waitch s1; gnonce := nonce s1; gpcv := GGate0; gent := false; grel := false |}).
+    + set (x := {| gcanc := rcanc s1 (kctx s1); gwait := waitch s1; gnonce := nonce s1; gpcv := GGate0; gent := false; grel := false;
+                   groot := kctx s1 |}).
       apply (Inv_ext (set_gs s1 (gs s1 ++ [x]))); [reflexivity | reflexivity|]. split.
       * apply Core_spawn; auto.
       * apply Live_spawn; auto. lia.
@@ -552,7 +562,7 @@ Section SetPc.
   Lemma setpc_old : getg s g = x. Proof. apply (getg_nth_error s g x Hx). Qed.
   Lemma setpc_done_same i : gdone (getg s i) = true -> getg s' i = getg s i.
   Proof. intros H. apply setpc_other. intros ->. rewrite setpc_old in H. congruence. Qed.
-  Lemma setpc_nonce i : gnonce (getg s' i) = gnonce (getg s i) /\ gcanc (getg s' i) = gcanc (getg s i).
+  Lemma setpc_nonce i : gnonce (getg s' i) = gnonce (getg s i) /\ gcanc (getg s' i) = gcanc (getg s i) /\ groot (getg s' i) = groot (getg s i).
   Proof.
     destruct (Nat.eq_dec i g) as [->|Hne]; [|rewrite setpc_other by exact Hne; auto].
     rewrite setpc_same, setpc_old. auto.
@@ -566,8 +576,8 @@ Section SetPc.
     intros Hp1 Hp2 HN HS [L1 [L2 L3]] [V1 [V2 [V3 V5]]] [R1 [R2 R3]].
     pose proof setpc_len as GL. pose proof setpc_done_same as DS.
     split; [|split; [|split; [|split]]].
-    - intros i Hi. rewrite GL in Hi. destruct (HN i Hi) as [N1 [N2 N3]]. destruct (setpc_nonce i) as [E1 E2].
-      rewrite E1, E2. change (nonce s') with (nonce s). split; [exact N1|]. split; [exact N2|].
+    - intros i Hi. rewrite GL in Hi. destruct (HN i Hi) as [N1 [N2 N3]]. destruct (setpc_nonce i) as [E1 [E2 E0]].
+      rewrite E1, E2, E0. change (nonce s') with (nonce s). change (rcanc s') with (rcanc s). split; [exact N1|]. split; [exact N2|].
       intros j Hj. destruct (setpc_nonce j) as [E3 _]. rewrite E3. now apply N3.
     - intros i Hi. rewrite GL in Hi. destruct (Nat.eq_dec i g) as [->|Hne].
       + rewrite setpc_same. cbn [gpcv gcanc with_gpc]. split.
@@ -601,20 +611,22 @@ Section SetPc.
     destruct p; try (exfalso; exact (Hx0 Hr)). subst hasrel. left. eauto.
   Qed.
 
-  Lemma setpc_live : (gdone (with_gpc x p) = true -> gnonce x <> nonce s) -> Live s -> Live s'.
+  Lemma setpc_live : (gdone (with_gpc x p) = true -> gnonce x <> nonce s \/ rcanc s (kctx s) = true) -> Live s -> Live s'.
   Proof.
-    intros Hd [N3 [K P]]. split; [|split; [exact K|]].
+    intros Hd [N3 [K [P N4]]]. split; [|split; [exact K|split]].
     - intros i Hi En Hnd'. rewrite setpc_len in Hi. destruct (setpc_nonce i) as [E1 _]. rewrite E1 in En. change (nonce s') with (nonce s) in En.
       apply (N3 i Hi En). destruct (Nat.eq_dec i g) as [->|Hne]; [now rewrite setpc_old | now rewrite setpc_other in Hnd'].
-    - intros H1 H2 H3. destruct (P H1 H2 H3) as [w [W1 [W2 W3]]]. exists w. rewrite setpc_len. split; [exact W1|].
+    - intros H1 H2 H3 H4. destruct (P H1 H2 H3 H4) as [w [W1 [W2 W3]]]. exists w. rewrite setpc_len. split; [exact W1|].
       destruct (setpc_nonce w) as [E1 _]. rewrite E1. split; [exact W2|].
       destruct (Nat.eq_dec w g) as [->|Hne]; [|now rewrite setpc_other].
-      rewrite setpc_same. rewrite setpc_old in W2. destruct (gdone (with_gpc x p)) eqn:E; [|reflexivity]. exfalso. now apply Hd.
+      rewrite setpc_same. rewrite setpc_old in W2. destruct (gdone (with_gpc x p)) eqn:E; [|reflexivity]. exfalso.
+      change (rcanc s' (kctx s')) with (rcanc s (kctx s)) in H4. destruct (Hd eq_refl) as [D|D]; [contradiction | congruence].
+    - intros i Hi En. rewrite setpc_len in Hi. destruct (setpc_nonce i) as [E1 [_ E3]]. rewrite E1 in En. rewrite E3. exact (N4 i Hi En).
   Qed.
 
   Lemma setpc_inv :
     (forall v hr e, p = GStore v hr e -> v = S g) -> (p = GWaitC -> gcanc x = true) ->
-    (forall v e, gpcv x <> GStore v true e) -> (gdone (with_gpc x p) = true -> gnonce x <> nonce s) ->
+    (forall v e, gpcv x <> GStore v true e) -> (gdone (with_gpc x p) = true -> gnonce x <> nonce s \/ rcanc s (kctx s) = true) ->
     Inv s -> Inv s'.
   Proof.
     intros Hp1 Hp2 Hns Hd [[HN [HS [HL [HL4 [HV HR]]]]] HLive].
@@ -634,8 +646,9 @@ Proof.
   - intros ->. destruct Hp as [Hp|[Hp|[_ Hp]]]; [discriminate | discriminate | exact Hp].
   - intros v e Hc. destruct Hpc as [Hq|[Hq|Hq]]; congruence.
   - intros Hd. destruct Hp as [->|[->|[_ Hc]]]; [discriminate | discriminate |].
-    destruct H as [[HN _] _]. destruct (getg_nth_error s g x Hx) as [Eg Hl]. destruct (HN g Hl) as [_ [N2 _]]. rewrite Eg in N2.
-    specialize (N2 Hc). lia.
+    destruct H as [[HN _] [_ [_ [_ N4]]]]. destruct (getg_nth_error s g x Hx) as [Eg Hl]. destruct (HN g Hl) as [_ [N2 _]]. rewrite Eg in N2.
+    destruct (N2 Hc) as [D|D]; [left; lia|]. destruct (Nat.eq_dec (gnonce x) (nonce s)) as [E|E]; [|now left].
+    right. rewrite <- Eg in E. rewrite <- (N4 g Hl E), Eg. exact D.
 Qed.
 
 Lemma proceed_go_inv s g x (en : bool) :
@@ -736,7 +749,7 @@ Proof.
   change (nonce s0) with (nonce s).
   destruct (Nat.eqb_spec (nonce s) (gnonce x)) as [Enc|Enc]; cbn [negb].
   - (* the result is stored and delivered *)
-    destruct HLive as [N3 [K P]]. rewrite <- Eg in Enc. destruct (N3 g Hl (eq_sym Enc) ltac:(now rewrite Eg)) as [Hk [Hnr Hres]].
+    destruct HLive as [N3 [K [P N4]]]. rewrite <- Eg in Enc. destruct (N3 g Hl (eq_sym Enc) ltac:(now rewrite Eg)) as [Hk [Hnr Hres]].
     destruct HV as [V1 [V2 [V3 V5]]]. destruct (V2 Hres) as [X0 [X1 [X2 [X3 X4]]]].
     set (s1 := set_val s0 true (S g) e (if hasrel then Some g else None) g).
     set (s2 := if Nat.eqb e 0 then set_target s1 (S g) 0 else set_target s1 (target s1) e).
@@ -746,14 +759,16 @@ Proof.
     { unfold s2. destruct (Nat.eqb e 0); cbn; rewrite ?X3; repeat split; reflexivity. }
     destruct F2 as [F1 [F2 [F3 [F4 [F5 [F6 [F7 [F8 [F9 [F10 [F11 [F12 F13]]]]]]]]]]]].
     pose proof (told_call_cbs s2 (NRes (S g) e)) as T. rewrite F9 in T.
-    destruct (rest_fields s2 _ (rest_call_cbs s2 (NRes (S g) e))) as [Q1 [Q2 [_ [Q4 [_ [Q6 [Q7 [Q8 [Q9 [Q10 [Q11 [Q12 [Q13 [Q14 _]]]]]]]]]]]]]].
+    destruct (rest_fields s2 _ (rest_call_cbs s2 (NRes (S g) e))) as [Q1 [Q2 [_ [Q4 [_ [Q6 [Q7 [Q8 [Q9 [Q10 [Q11 [Q12 [Q13 [Q14 [_ [_ Q17]]]]]]]]]]]]]]]].
+    assert (F17 : rootc s2 = rootc s) by (unfold s2, s1; destruct (Nat.eqb e 0); reflexivity). rewrite F17 in Q17.
     set (s' := call_cbs s2 (NRes (S g) e)) in *. clearbody s' s2 s1.
     rewrite F10 in Q1. rewrite F11 in Q2. rewrite F2 in Q4. rewrite F4 in Q6. rewrite F5 in Q7. rewrite F6 in Q8. rewrite F7 in Q9. rewrite F8 in Q10.
     rewrite F12 in Q11. rewrite F13 in Q12. rewrite F1 in Q13. rewrite F3 in Q14.
     assert (GE : forall i, getg s' i = getg s0 i) by (intros i; unfold getg; now rewrite Q13).
     split.
     + split; [|split; [|split; [|split; [|split]]]].
-      * intros i Hi. rewrite Q13 in Hi. rewrite GE, Q4. destruct (N0 i Hi) as [A1 [A2 A3]]. split; [exact A1|]. split; [exact A2|].
+      * intros i Hi. rewrite Q13 in Hi. rewrite GE, Q4. destruct (N0 i Hi) as [A1 [A2 A3]]. split; [exact A1|].
+        split; [unfold rcanc in *; rewrite Q17; exact A2|].
         intros j Hj. rewrite GE. now apply A3.
       * intros i Hi. rewrite Q13 in Hi. rewrite GE. now apply S0.
       * destruct L0 as [A1 [A2 A3]]. unfold InvL123, ids. rewrite Q14, Q13, Q9. split; [exact A1|]. split.
@@ -778,14 +793,16 @@ Proof.
         -- intros _ r y' Hy' Hin Hkn. destruct (told_back _ _ _ _ _ _ T Hy') as [y [Hy [B1 [B2 B3]]]]. rewrite Q7, Q8.
            unfold inset in B3. rewrite <- B1, Hin in B3. rewrite <- B2 in B3. destruct (rkind y'); [contradiction|..]; exact B3.
     + assert (NR : nrefs s' = nrefs s) by (unfold nrefs; eapply told_nrefs; eauto).
-      split; [|split].
+      split; [|split; [|split]].
       * intros i Hi En Hd. exfalso. rewrite Q13 in Hi. rewrite GE in *. rewrite Q4 in En. rewrite GL in Hi.
         destruct (Nat.eq_dec i g) as [->|Hne]; [congruence|]. rewrite GO in En by exact Hne. apply Hne.
         apply (InvN_inj s i g HN Hi Hl). congruence.
       * intros _. rewrite Q1, NR. split; [exact Hk|]. left. exact Hnr.
       * intros _ _ Hc. congruence.
+      * intros i Hi En. rewrite Q13 in Hi. rewrite GE in *. rewrite Q4 in En. rewrite Q1. rewrite GL in Hi.
+        destruct (setpc_nonce s g x GDone Ex i) as [E1 [_ E3]]. fold s0 in E1, E3. rewrite E1 in En. rewrite E3. exact (N4 i Hi En).
   - (* superseded: the result is dropped, its release function called at once *)
-    assert (Live0 : Live s0) by (apply (setpc_live s g x GDone Ex Hnd); [intros _; congruence | exact HLive]).
+    assert (Live0 : Live s0) by (apply (setpc_live s g x GDone Ex Hnd); [intros _; left; congruence | exact HLive]).
     destruct hasrel.
     + set (c := {| rc_id := g; rc_val := S g; rc_target := target s0;
                    rc_stale := cnt (fun y => rin y && is_res (S g) e (rlast y)) (refs s0) |}).
@@ -850,11 +867,11 @@ Qed.
 
 Lemma Live_addref s k : Live s -> (resolved s = true \/ nrefs s > 0) -> Live (set_refs s (refs s ++ [newref k])).
 Proof.
-  intros [N3 [K P]] Hc. pose proof (nrefs_addref s k) as NR. set (s1 := set_refs s (refs s ++ [newref k])) in *.
-  split; [|split].
+  intros [N3 [K [P N4]]] Hc. pose proof (nrefs_addref s k) as NR. set (s1 := set_refs s (refs s ++ [newref k])) in *.
+  split; [|split; [|split; [|exact N4]]].
   - intros g Hg En Hd. destruct (N3 g Hg En Hd) as [A1 [A2 A3]]. split; [exact A1|]. split; [lia | exact A3].
   - intros Hres. destruct (K Hres) as [A1 A2]. split; [exact A1|]. left. lia.
-  - intros H1 _ H3. change (resolved s1) with (resolved s) in H3. destruct Hc as [Hc|Hc]; [congruence|]. exact (P H1 Hc H3).
+  - intros H1 _ H3 H4. change (resolved s1) with (resolved s) in H3. destruct Hc as [Hc|Hc]; [congruence|]. exact (P H1 Hc H3 H4).
 Qed.
 
 Lemma add_ref_tell s k :
@@ -894,11 +911,11 @@ Proof.
     assert (L1 : Live s1) by (apply Live_addref; auto).
     assert (G : k <> KNil -> Inv (invoke s1 (length (refs s)) (NRes (value s) (verr s)))).
     { intros Hk. specialize (TL eq_refl Hk).
-      destruct (rest_fields s1 _ (rest_invoke s1 (length (refs s)) (NRes (value s) (verr s)))) as [Q1 [Q2 [_ [Q4 [_ [Q6 [Q7 [Q8 [Q9 [Q10 [Q11 [Q12 [Q13 [Q14 _]]]]]]]]]]]]]].
+      destruct (rest_fields s1 _ (rest_invoke s1 (length (refs s)) (NRes (value s) (verr s)))) as [Q1 [Q2 [_ [Q4 [_ [Q6 [Q7 [Q8 [Q9 [Q10 [Q11 [Q12 [Q13 [Q14 [_ [_ Q17]]]]]]]]]]]]]]]].
       pose proof (told_invoke s1 (length (refs s)) (NRes (value s) (verr s))) as T.
       set (s2 := invoke s1 _ _) in *. split.
-      - apply (Core_refs s); [unfold cfields0; rewrite Q13, Q4, Q14, Q6, Q7, Q8, Q9, Q10, Q11, Q12; reflexivity | exact TL | exact HC].
-      - apply (Live_ext s1); [|exact L1]. unfold lfields. rewrite Q13, Q4, Q1, Q2, Q6, Q8.
+      - apply (Core_refs s); [unfold cfields0; rewrite Q13, Q4, Q14, Q6, Q7, Q8, Q9, Q10, Q11, Q12, Q17; reflexivity | exact TL | exact HC].
+      - apply (Live_ext s1); [|exact L1]. unfold lfields. rewrite Q13, Q4, Q1, Q2, Q6, Q8, Q17.
         replace (nrefs s2) with (nrefs s1) by (symmetry; unfold nrefs; eapply told_nrefs; eauto). reflexivity. }
     destruct k; cbn [fx_nilcb repaired]; try (apply G; discriminate).
     split; [apply Core_addref; auto | exact L1].
@@ -922,14 +939,14 @@ Proof.
   - destruct (negb (keep s) || negb (resolved s) || negb (Nat.eqb (verr s) 0)) eqn:Ec.
     + apply shutdown_inv; auto.
     + split; [exact C1|]. apply orb_false_iff in Ec. destruct Ec as [Ec E3]. apply orb_false_iff in Ec. destruct Ec as [E1 E2].
-      apply negb_false_iff in E1, E2, E3. apply Nat.eqb_eq in E3. destruct HLv as [N3 [K P]]. split; [|split].
+      apply negb_false_iff in E1, E2, E3. apply Nat.eqb_eq in E3. destruct HLv as [N3 [K [P N4]]]. split; [|split; [|split; [|exact N4]]].
       * intros g Hg En Hd. destruct (N3 g Hg En Hd) as [_ [_ A]]. congruence.
       * intros _. destruct (K E2) as [A _]. split; [exact A|]. right. auto.
       * intros _ H2. lia.
-  - split; [exact C1|]. destruct HLv as [N3 [K P]]. split; [|split].
+  - split; [exact C1|]. destruct HLv as [N3 [K [P N4]]]. split; [|split; [|split; [|exact N4]]].
     + intros g Hg En Hd. destruct (N3 g Hg En Hd) as [A1 [A2 A3]]. split; [exact A1|]. split; [lia | exact A3].
     + intros Hres. destruct (K Hres) as [A _]. split; [exact A|]. left. lia.
-    + intros H1 H2 H3. apply (P H1); [lia | exact H3].
+    + intros H1 H2 H3 H4. apply (P H1); [lia | exact H3 | exact H4].
 Qed.
 
 Lemma release_call_by_inv s r oc : Inv s -> Inv (fst (release_call_by s r oc)).
@@ -1006,6 +1023,80 @@ Proof.
   destruct (ww_firepc x) as [[|]|]; try exact H. apply remove_ref_inv. now apply (Inv_ext s).
 Qed.
 
+(* ------------------------------------------------------------------ *)
+(* the owner cancels a root context *)
+Definition ofields (s : st) :=
+  (nonce s, rellog s, (resolved s, value s, verr s, vrel s, vgen s), (target s, terr s), refs s, rootc s, kctx s, keep s).
+
+Lemma Inv_gsame s s' :
+  gsame s s' -> ofields s' = ofields s ->
+  (forall i, i < length (gs s) -> gcanc (getg s' i) = true -> gcanc (getg s i) = true \/ rcanc s (groot (getg s i)) = true) ->
+  Inv s -> Inv s'.
+Proof.
+  intros GS EO HC [[HN [HS [[L1 [L2 L3]] [HL4 [[V1 [V2 [V3 V5]]] [R1 [R2 R3]]]]]]] [N3 [K [P N4]]]].
+  unfold ofields in EO. inversion EO as [[O1 O2 O3 O4 O5 O6 O7 O8 O9 O10 O11 O12 O13]].
+  assert (GD : forall i, gdone (getg s' i) = gdone (getg s i)) by (intros i; now apply gsame_gdone).
+  destruct GS as [GL GF].
+  assert (RC : forall c, rcanc s' c = rcanc s c) by (intros c; unfold rcanc; now rewrite O11).
+  assert (NR : nrefs s' = nrefs s) by (unfold nrefs; now rewrite O10).
+  split.
+  - split; [|split; [|split; [|split; [|split]]]].
+    + intros i Hi. rewrite GL in Hi. destruct (HN i Hi) as [A1 [A2 A3]]. destruct (GF i) as [_ [En [_ [_ [_ [_ Eg]]]]]].
+      rewrite En, O1, Eg, RC. split; [exact A1|]. split.
+      * intros Hc. destruct (HC i Hi Hc) as [D|D]; [exact (A2 D) | now right].
+      * intros j Hj. destruct (GF j) as [_ [Ej _]]. rewrite Ej. now apply A3.
+    + intros i Hi. rewrite GL in Hi. destruct (HS i Hi) as [S1 S2]. destruct (GF i) as [_ [_ [Ep [Er [_ [Ec _]]]]]].
+      rewrite Ep, Er. split; [exact S1|]. intros Hp. apply Ec. now apply S2.
+    + unfold InvL123, ids. rewrite O2, O6. split; [exact L1|]. split.
+      * intros c Hc. apply (entry_ok_mono s s'); [lia | intros i _ Hd; now rewrite GD | intros i _ _; apply GF | exact (L2 c Hc)].
+      * intros g Hg. destruct (L3 g Hg) as [A1 [A2 [A3 A4]]]. rewrite GL, GD. destruct (GF g) as [_ [_ [_ [Er _]]]]. rewrite Er. auto.
+    + intros g Hg Hr. rewrite GL in Hg. destruct (GF g) as [_ [_ [Ep [Er _]]]]. rewrite Er in Hr. rewrite Ep. unfold ids. rewrite O2, O6. exact (HL4 g Hg Hr).
+    + unfold InvV. rewrite O3, O4, O5, O6, O7, O8, O9, O1, GL. split; [|auto].
+      intros Hres. destruct (V1 Hres) as [A1 [A2 [A3 A4]]]. rewrite GD. destruct (GF (vgen s)) as [_ [En _]]. rewrite En. auto.
+    + unfold InvR. rewrite O10, O3, O4, O5, GL. split; [exact R1|]. split; [|exact R3].
+      intros r y v e Hy Hl. destruct (R2 r y v e Hy Hl) as [g [G1 [G2 G3]]]. exists g. rewrite GD. auto.
+  - split; [|split; [|split]]; rewrite ?O3, ?O5, ?O12, ?O13, ?NR, ?GL, ?RC, ?O1.
+    + intros g Hg En Hd. destruct (GF g) as [_ [E1 _]]. rewrite E1 in En. rewrite GD in Hd. exact (N3 g Hg En Hd).
+    + exact K.
+    + intros H1 H2 H3 H4. destruct (P H1 H2 H3 H4) as [w [W1 [W2 W3]]]. exists w. destruct (GF w) as [_ [E1 _]]. rewrite E1, GD. auto.
+    + intros g Hg En. destruct (GF g) as [_ [E1 [_ [_ [_ [_ E6]]]]]]. rewrite E1 in En. rewrite E6. exact (N4 g Hg En).
+Qed.
+
+Lemma rcanc_cons s c d : rcanc (set_rootc s (c :: rootc s)) d = Nat.eqb d c || rcanc s d.
+Proof. reflexivity. Qed.
+
+Lemma Inv_set_rootc s c : Inv s -> Inv (set_rootc s (c :: rootc s)).
+Proof.
+  intros [[HN [HS [HL [HL4 [HV HR]]]]] [N3 [K [P N4]]]]. set (s' := set_rootc s (c :: rootc s)).
+  assert (RC : forall d, rcanc s d = true -> rcanc s' d = true) by (intros d H; unfold s'; rewrite rcanc_cons, H; apply orb_true_r).
+  split.
+  - split; [|split; [exact HS | split; [exact HL | split; [exact HL4 | split; [exact HV | exact HR]]]]].
+    intros i Hi. destruct (HN i Hi) as [A1 [A2 A3]]. split; [exact A1|]. split; [|exact A3].
+    intros Hc. destruct (A2 Hc) as [D|D]; [now left | right; now apply RC].
+  - split; [exact N3|]. split; [exact K|]. split; [|exact N4].
+    intros H1 H2 H3 H4. apply (P H1 H2 H3). destruct (rcanc s (kctx s)) eqn:E; [|reflexivity]. change (kctx s') with (kctx s) in H4. rewrite (RC _ E) in H4. discriminate.
+Qed.
+
+Lemma cancel_g_only s g i :
+  gcanc (getg (cancel_g s (Some g)) i) = true -> gcanc (getg s i) = true \/ (i = g /\ g < length (gs s)).
+Proof.
+  unfold cancel_g. destruct (nth_error (gs s) g) as [x|] eqn:E; [|now left]. destruct (getg_nth_error s g x E) as [_ Hl].
+  destruct (Nat.eq_dec i g) as [->|Hne]; [right; auto | rewrite getg_setg_other by exact Hne; now left].
+Qed.
+
+Lemma cancel_root_inv s c : Inv s -> Inv (cancel_root s c).
+Proof.
+  intros H. unfold cancel_root. generalize (seq 0 (length (gs s))). intros l.
+  assert (H0 : Inv (set_rootc s (c :: rootc s)) /\ rcanc (set_rootc s (c :: rootc s)) c = true).
+  { split; [now apply Inv_set_rootc | rewrite rcanc_cons, Nat.eqb_refl; reflexivity]. }
+  revert H0. generalize (set_rootc s (c :: rootc s)). induction l as [|g l IH]; intros s0 [H0 Hc]; [exact H0|]. cbn [fold_left]. apply IH.
+  destruct (Nat.eqb_spec (groot (getg s0 g)) c) as [E|E]; [|auto].
+  destruct (cancel_g_rest s0 (Some g)) as [G1 [G2 [G3 [G4 [G5 [G6 [G7 [G8 [G9 [G10 [G11 [G12 [G13 [G14 [G15 [G16 [G17 [G18 G19]]]]]]]]]]]]]]]]]].
+  split; [|unfold rcanc; rewrite G19; exact Hc].
+  apply (Inv_gsame s0); [exact (cancel_g_gs s0 (Some g)) | unfold ofields; now rewrite G5, G14, G7, G8, G9, G10, G11, G12, G13, G3, G19, G1, G2 | | exact H0].
+  intros i Hi Hci. destruct (cancel_g_only s0 g i Hci) as [D|[-> _]]; [now left | right; now rewrite E].
+Qed.
+
 Lemma step_inv s e : wf_ev e -> Inv s -> Inv (step repaired s e).
 Proof.
   intros Hwf H. destruct e; cbn [step].
@@ -1023,6 +1114,7 @@ Proof.
   - destruct (nth_error (conss s) c); [now apply (Inv_ext s) | exact H].
   - now apply fire_section_inv.
   - now apply cb_return_inv.
+  - destruct (Nat.eqb c 0); [exact H | now apply cancel_root_inv].
 Qed.
 
 Lemma run_app fx s es e : run fx s (es ++ [e]) = step fx (run fx s es) e.
